@@ -487,6 +487,32 @@ func init() {
 						judgeProgram(c, prog, data, "built-in-condition", false)
 					}})
 			}
+			// (3d) prefix operators in front of indexes, properties and calls: the operator applies to what the chain yields
+			{
+				flags, nums, obj := model.Var{Name: "flags"}, model.Var{Name: "nums"}, model.Var{Name: "obj"}
+				idx := func(x model.Expr, i int64) model.Expr { return model.Index{X: x, I: model.Lit{V: model.Int(i)}} }
+				not := func(x model.Expr) model.Expr { return model.Unary{Op: "!", X: x} }
+				neg := func(x model.Expr) model.Expr { return model.Unary{Op: "-", X: x} }
+				chainConds := []model.Expr{not(idx(flags, 0)), not(idx(flags, 1)), neg(idx(nums, 0)), neg(idx(nums, 1)), not(model.Dot{X: obj, Name: "on"}), not(model.Dot{X: obj, Name: "off"}),
+					not(model.Call{X: nums, Name: "contains", Args: []model.Expr{model.Lit{V: model.Int(5)}}}), not(not(idx(flags, 1))), neg(model.Call{X: idx(nums, 1), Name: "abs"}), not(idx(model.Dot{X: obj, Name: "list"}, 0)),
+					neg(model.Index{X: nums, I: idx(nums, 0)}), not(model.Index{X: flags, I: model.Dot{X: model.Var{Name: "loop9"}, Name: "index"}})}
+				secs = append(secs, core.Section{Name: "conditions-with-prefix-operators-on-chains", Exhaustive: true, N: len(chainConds),
+					Run: func(c *core.Ctx, i int) {
+						cond := chainConds[i]
+						data := map[string]model.Value{"flags": model.Arr(model.Bool(true), model.Bool(false)), "nums": model.Arr(model.Int(0), model.Int(5)),
+							"obj":   model.Obj(map[string]model.Value{"on": model.Bool(true), "off": model.Bool(false), "list": model.Arr(model.Int(0))}),
+							"loop9": model.Obj(map[string]model.Value{"index": model.Int(1)})}
+						v := model.Var{Name: "v"}
+						prog := []model.Stmt{
+							model.If{Conds: []model.Expr{cond}, Bodies: [][]model.Stmt{{model.Text{S: "T"}}}, Else: []model.Stmt{model.Text{S: "F"}}}, model.Text{S: "|"},
+							model.If{Conds: []model.Expr{model.Lit{V: model.Bool(false)}, cond}, Bodies: [][]model.Stmt{{model.Text{S: "no"}}, {model.Text{S: "T"}}}, Else: []model.Stmt{model.Text{S: "F"}}}, model.Text{S: "|"},
+							model.Print{E: model.Ternary{C: cond, A: model.StrLit{S: "A"}, B: model.StrLit{S: "B"}}}, model.Text{S: "|"},
+							model.Each{Var: "v", Arr: intArr(1, 2, 3), Body: []model.Stmt{model.Print{E: v}, model.BreakIf{E: cond}, model.Text{S: ","}}}, model.Text{S: "|"},
+							model.Each{Var: "v", Arr: intArr(1, 2, 3), Body: []model.Stmt{model.Print{E: v}, model.ContinueIf{E: cond}, model.Text{S: ","}}},
+						}
+						judgeProgram(c, prog, data, "prefix-on-chain-condition", false)
+					}})
+			}
 			// (4) ternary over the whole table, arms traced, and failing arms
 			secs = append(secs, core.Section{Name: "ternary", Exhaustive: true, N: len(condTable) * 2 * 13,
 				Run: func(c *core.Ctx, i int) {
